@@ -1,5 +1,6 @@
 CONSTANT MaxExt = 2
 CONSTANT MaxSG = 1
+CONSTANT MaxUx = 0
 CONSTANT MaxMeta = 0
 CONSTANT MaxFeed = 2
 CONSTANT MaxCache = 0
